@@ -42,6 +42,7 @@ var M = &run.Monitor{
 		need("algebra_sequences_sampled", 1000)
 		need("algebra_vectors_compared", 200000)
 		need("coder_vectors_compared", 1000)
+		need("snapshots_compared", 5000)
 		need("spelling_groups", 1000)
 		need("spelling_results_nil_error", 300)
 		need("spelling_results_error", 30)
@@ -289,6 +290,30 @@ func checkSeq(w *run.W, seq []int, r *rand.Rand, exhaustive bool) {
 				violateVector(w, "coder-options-model", "Decoder.Reset(own options, ...)", seq, g, got, want)
 			}
 			w.Count("coder_vectors_compared", 3)
+			// a join is a new map: what was joined from a coder's options - alone or with further
+			// arguments - keeps its values when the coder's options change afterwards (Reset with
+			// other options, a MarshalEncode / UnmarshalDecode call with call options)
+			other := buildOpts([]int{r.IntN(len(atoms)), r.IntN(len(atoms)), r.IntN(len(atoms))})
+			e = jsontext.NewEncoder(io.Discard, buildOpts(seq)...)
+			d = jsontext.NewDecoder(strings.NewReader("0 1"), buildOpts(seq)...)
+			snaps := []json.Options{json.JoinOptions(e.Options()), json.JoinOptions(e.Options(), json.JoinOptions()), json.JoinOptions(nil, e.Options()),
+				json.JoinOptions(d.Options()), json.JoinOptions(json.JoinOptions(d.Options()))}
+			var before []*vector
+			for _, sn := range snaps {
+				before = append(before, observe(sn))
+			}
+			var sink int
+			json.MarshalEncode(e, 1, other...)
+			json.UnmarshalDecode(d, &sink, other...)
+			e.Reset(io.Discard, other...)
+			d.Reset(strings.NewReader(""), other...)
+			for i, sn := range snaps {
+				w.Count("snapshots_compared", 1)
+				if g := before[i].equal(observe(sn)); g != "" {
+					w.Violate("join-aliases-argument", map[string]string{"getter": g, "snapshot": fmt.Sprint(i)},
+						"JoinOptions of a coder's Options() (spelling %d) changed when the coder was used/Reset with other options afterwards: GetOption(%s) differs; joined from %s", i, g, seqName(seq))
+				}
+			}
 		}
 	}
 }
